@@ -126,6 +126,19 @@ frame).  Frame marker: ALL evolutions returned in a grid point (every call of ev
 sub-product) by different routes in the same basis with the Hamiltonian in the same state must
 carry the same is_in_rwa.
 
+Pure dephasing (redfield, lindblad).  ReducedDensityMatrixPropagator(axis, H, RTensor=T,
+PDeph=PureDephasing(constants, dtype)): after every (sub-)step both time-independent routines
+multiply the density matrix element by element with the dephasing factor of the step; the
+Gaussian factor depends on the TIME of the step, which each routine takes from the propagation
+axis.  Inside every grid point, before the rotating frame: dephasing type {Lorentzian,
+Gaussian} x start of the propagation axis {zero, non-zero (thorough: negative and positive, not
+a multiple of the step)} [x Nref {1, 2}, thorough] x 3 routes x 3 bases on the short axis,
+spanning set outside any context / general state inside eigenbasis_of(H) and eigenbasis_of(X);
+one fresh PureDephasing and propagator per route and variant.  Claimed: route
+agreement, class R (keys b/pure-dephasing/<section>/<type>/axis-start-{zero,nonzero}[/Nref=2]/
+<basis>/...), untouched initial state, frame marker.  No absolute value (the property does not
+say what pure dephasing is); the routines for time-dependent tensors take no PureDephasing.
+
 Tolerances: R = 1e-10 * scale for every identity between representations; (d) computed bound
 exp(D+E)-1 (D = dt * int|C|, E = accumulated Taylor remainder), see lineshape_ob.
 """
@@ -1068,11 +1081,113 @@ def _check_propagation(acc, kind, forms, conv, ham, Xop, N, prop, Tref, td=False
     # ---- conversion AFTER the propagator was created -------------------------------------
     if late:
         _check_late_conversion(acc, kind, late, lprops, ns, gen, freshres, ham, Xop, cut)
+    # ---- propagators that also carry a PureDephasing object ------------------------------
+    if prop.get("pdeph") and rwa and not td:
+        _check_pdeph(acc, kind, forms, conv, ham, Xop, N, ta.step, ns, states, cut,
+                     prop["pdeph"])
     # ---- rotating frame of the Hamiltonian (changes the Hamiltonian object: last) ----------
     if rwa:
         _check_rwa(acc, kind, forms, conv, ham, Xop, N, tas, ns, states, cut,
                    None if td else prop.get("H"), None if td else Tref, prop.get("L", 4))
     _check_frames(acc)
+
+
+PDEPH_TYPES = ("Lorentzian", "Gaussian")
+
+
+def _pdeph_rates(N, dtype):
+    """Symmetric matrix of pure-dephasing constants with zero diagonal, all off-diagonal
+    values different: rates (1/fs) for "Lorentzian", their squares (1/fs^2) for "Gaussian"."""
+    g = numpy.zeros((N, N), dtype=float)
+    for a in range(N):
+        for b in range(N):
+            if a != b:
+                g[a, b] = 1.0 / (150.0 + 40.0 * (a + b) + 25.0 * abs(a - b))
+    if dtype == "Gaussian":
+        g = g ** 2
+    elif dtype != "Lorentzian":
+        raise isolation.HarnessError("unknown type of pure dephasing: " + str(dtype))
+    return g
+
+
+def _start_label(t0):
+    return "axis-start-zero" if float(t0) == 0.0 else "axis-start-nonzero"
+
+
+def _check_pdeph(acc, kind, forms, conv, ham, Xop, N, dt, ns, span, cut, spec):
+    """Propagators that also carry a PureDephasing object:
+    ReducedDensityMatrixPropagator(axis, H, RTensor=T, PDeph=PureDephasing(rates, dtype)).
+    After every (sub-)step both time-independent routines multiply the density matrix element
+    by element with the dephasing factor of that step; the Gaussian one depends on the TIME of
+    the step, which each routine takes from the propagation axis on its own.
+
+    Complete sub-product inside the grid point: dephasing type {Lorentzian, Gaussian} x start
+    of the propagation axis (spec["starts"]: zero and non-zero) x Nref (spec["nrefs"]) x 3
+    routes x 3 bases x initial states: the whole spanning set (decides every initial state, by
+    linearity) in the bases spec["span_bases"] (outside any context), the general initial
+    state (full rank, every element non-zero and complex) in the other ones; short axis of ns points with the step dt, one fresh PureDephasing object and
+    one fresh propagator per route and variant.  Claimed: route
+    agreement (operator / four-index / converted form), class R, and what every call is
+    checked for (initial state untouched, frame marker).  No absolute value: the property does
+    not say what pure dephasing is (and the package applies its constants element by element
+    in whatever basis is current)."""
+    from quantarhei.qm import ReducedDensityMatrixPropagator, ReducedDensityMatrix
+    from quantarhei.qm import PureDephasing
+    variants = []
+    for dtype in PDEPH_TYPES:
+        for t0 in spec["starts"]:
+            for nref in spec["nrefs"]:
+                axis = systems.time_axis(ns, dt, float(t0))
+                if float(axis.data[0]) != float(t0):
+                    raise isolation.HarnessError("propagation axis does not start at %r" % t0)
+
+                def mk(T, axis=axis, dtype=dtype):
+                    return ReducedDensityMatrixPropagator(
+                        axis, ham, RTensor=T, PDeph=PureDephasing(_pdeph_rates(N, dtype),
+                                                                  dtype=dtype))
+                vp = {k: mk(T) for k, T in forms.items()}
+                vc = {B: mk(T) for B, T in conv.items() if B in BASES}
+                vlab = "%s/%s%s" % (dtype, _start_label(t0),
+                                    "" if nref == 1 else "/Nref=%d" % nref)
+                variants.append((vlab, dtype, float(t0), int(nref), vp, vc))
+    for B in BASES:
+        states = span if B in spec["span_bases"] else [("general", _general_state(N))]
+        rhos = {(i, tag, r): ReducedDensityMatrix(data=s.copy())
+                for i in range(len(variants)) for tag, s in states for r in ROUTES}
+        got = {}
+        with _basis(B, ham, Xop):
+            for i, (vlab, dtype, t0, nref, vp, vc) in enumerate(variants):
+                routes = {"op": vp["op"], "tensor": vp["tensor"], "conv": vc[B]}
+                for tag, s in states:
+                    for r in ROUTES:
+                        ev = _propagate(acc, kind, B, r, routes[r], rhos[(i, tag, r)], {}, nref,
+                                        cut, sfx="/pure-dephasing/" + vlab, tag=tag, via="arg")
+                        if ev is not None:
+                            got[(i, tag, r)] = _arr(ev.data)
+        for i, (vlab, dtype, t0, nref, vp, vc) in enumerate(variants):
+            for tag, s in states:
+                g = {r: got[(i, tag, r)] for r in ROUTES if (i, tag, r) in got}
+                for r, x in g.items():
+                    if x.shape[0] != ns:
+                        acc.add("b/pure-dephasing/%s/%s/%s/%s/stored-points" % (kind, vlab, B, r),
+                                "%d stored points on an axis of %d points" % (x.shape[0], ns))
+                what = ("state %s, propagator with PureDephasing(dtype=%r) on TimeAxis(%g, %d, "
+                        "%g), Nref = %d, basis %s" % (tag, dtype, t0, ns, dt, nref, B))
+                if "tensor" in g:
+                    sc = max(1.0, float(numpy.max(numpy.abs(g["tensor"]))))
+                    if "op" in g:
+                        acc.same("b/pure-dephasing/%s/%s/%s/op-vs-tensor" % (kind, vlab, B),
+                                 "b.pdeph.forms", g["op"], g["tensor"],
+                                 "operator form vs four-index form: " + what, scale=sc)
+                    if "conv" in g:
+                        acc.same("b/pure-dephasing/%s/%s/%s/converted-vs-tensor"
+                                 % (kind, vlab, B), "b.pdeph.forms", g["conv"], g["tensor"],
+                                 "converted form vs four-index form: " + what, scale=sc)
+                elif "op" in g and "conv" in g:
+                    sc = max(1.0, float(numpy.max(numpy.abs(g["op"]))))
+                    acc.same("b/pure-dephasing/%s/%s/%s/op-vs-converted" % (kind, vlab, B),
+                             "b.pdeph.forms", g["op"], g["conv"],
+                             "operator form vs converted form: " + what, scale=sc)
 
 
 def _rwa_absolute_bases(H, omega):
@@ -1240,7 +1355,7 @@ def eval_redfield(case):
     prop = {"ta": S.ta, "H": S.hmatrix(), "L": {"short-exp": 4, "short-exp-2": 2,
                                                "short-exp-6": 6}[case["method"]],
             "method": case["method"], "nref": case["nref"], "hist": case.get("hist", 2),
-            "refine": _refine_spec(case)}
+            "refine": _refine_spec(case), "pdeph": case.get("pdeph")}
     if prop["method"] == "short-exp":
         prop["method"] = None              # the default of propagate()
     prop["variants"] = bool(prop["refine"] and prop["method"] is None and prop["nref"] == 1)
@@ -1307,7 +1422,7 @@ def eval_lindblad(case):
     else:
         H = numpy.array(H, dtype=float)
     prop = {"ta": ta, "H": H, "L": 4, "method": None, "nref": 1, "hist": case.get("hist", 2),
-            "refine": _refine_spec(case)}
+            "refine": _refine_spec(case), "pdeph": case.get("pdeph")}
     prop["variants"] = bool(prop["refine"])
     Tref = RA.gksl_tensor(Ks, rates, N)
     _check_forms(acc, "lindblad", lambda: LindbladForm(ham, sbi(), as_operators=True),
@@ -1729,6 +1844,11 @@ def replay(case):
 # ---------------------------------------------------------------------------
 # stored points of the step-refinement axes (the refined runs do m * (REFNC - 1) sub-steps)
 REFNC = {"quick": 4, "thorough": 8}
+# propagators with a PureDephasing object (redfield, lindblad): starts of the propagation axis
+# (fs; zero, non-zero: positive, thorough also negative / not a multiple of the step) and step
+# refinements, each x {Lorentzian, Gaussian}
+PDEPH = {"quick": {"starts": [0.0, 150.0], "nrefs": [1], "span_bases": ["out"]},
+         "thorough": {"starts": [0.0, -40.0, 150.5], "nrefs": [1, 2], "span_bases": ["out"]}}
 
 
 def _sys_ok(c):
@@ -1746,7 +1866,7 @@ def redfield_cases(tier):
                "ftype": ["OverdampedBrownian", "OverdampedBrownian-HighTemperature"],
                "lam_tau": [[20.0, 50.0]], "T": [300.0, 77.0],
                "method": ["short-exp"], "nref": [1], "nt": [40], "dt": [1.0], "hist": [2],
-               "refnc": [REFNC["quick"]]}
+               "refnc": [REFNC["quick"]], "pdeph": [PDEPH["quick"]]}
     else:
         dom = {"sec": ["redfield"], "route": ["protocol", "direct", "aggregate"],
                "n": [1, 2, 3, 4],
@@ -1754,7 +1874,8 @@ def redfield_cases(tier):
                "ftype": ["OverdampedBrownian", "OverdampedBrownian-HighTemperature"],
                "lam_tau": [[20.0, 50.0], [60.0, 100.0]], "T": [300.0, 77.0],
                "method": ["short-exp", "short-exp-2", "short-exp-6"], "nref": [1, 2],
-               "nt": [60], "dt": [1.0], "hist": [3], "refnc": [REFNC["thorough"]]}
+               "nt": [60], "dt": [1.0], "hist": [3], "refnc": [REFNC["thorough"]],
+               "pdeph": [PDEPH["thorough"]]}
 
     def ok(c):
         if not _sys_ok(c):
@@ -1793,7 +1914,8 @@ def lindblad_cases(tier):
             for ops in sets:
                 out.append({"sec": "lindblad", "N": N, "hpat": hpat,
                             "ops": [list(o) for o in ops], "nt": 30, "dt": 2.0,
-                            "hist": 2 if tier == "quick" else 3, "refnc": REFNC[tier]})
+                            "hist": 2 if tier == "quick" else 3, "refnc": REFNC[tier],
+                            "pdeph": PDEPH[tier]})
     out.sort(key=lambda c: (c["N"], len(c["ops"]),
                             ("diagonal", "coupled", "complex").index(c["hpat"])))
     return out
@@ -1947,7 +2069,11 @@ def run(run):
                 "tensors exist (aggregates: from the start), spanning set x 3 routes x 4 bases, "
                 "results compared as returned and after convert_from_RWA, dephasing: the "
                 "converted rotating-frame run against the analytic solution; frame marker "
-                "is_in_rwa of every returned evolution agrees between the routes.  Non-trivial: "
+                "is_in_rwa of every returned evolution agrees between the routes; x propagators "
+                "carrying a PureDephasing object (redfield, lindblad): dephasing type "
+                "{Lorentzian, Gaussian} x start of the propagation axis {zero, non-zero} [x Nref "
+                "{1, 2}: thorough] x 3 routes x 3 bases, spanning set / general state, short "
+                "axis: route agreement.  Non-trivial: "
                 "redfield/td = "
                 "resonance coupling != 0 (eigenbasis differs from the site basis); lindblad = "
                 "coupled Hamiltonian and at least one projector with i != j; dephasing = "
@@ -2020,6 +2146,16 @@ def run(run):
         "quotient; Nref = 1 on a coarser axis is compared with the analytic solution under "
         "the first-order bound of the step m*dt (the rate is sampled at one point of the "
         "step, which is all the bound assumes)",
+        "pure dephasing: PureDephasing(constants, dtype) with a fixed symmetric matrix of "
+        "constants (zero diagonal, all off-diagonal values different; Gaussian: their squares); "
+        "only route agreement is claimed -- the property does not define pure dephasing, and the "
+        "package applies the constants element by element in whatever basis is current (its "
+        "docstring: 'must be applied only while working in the correct basis'), so no absolute "
+        "value and no relation between the results in different bases is demanded; the "
+        "propagation routines for time-dependent tensors ignore a PureDephasing object (not "
+        "in the sub-product); a propagator with PureDephasing but no tensor is outside this "
+        "property; whole spanning set outside any context, the general state inside "
+        "eigenbasis_of(H) / eigenbasis_of(X); quick tier: no step refinement",
         "shared-initial-state histories use one general initial state (full rank, all elements "
         "non-zero, complex128) and its real part stored as float64 (sequences of hist - 1 "
         "calls); the fresh-object result is tied to the spanning set by "
@@ -2039,6 +2175,7 @@ def run(run):
                                   "time_dependent": [_vlab(v, True) for v in _refinements(True)],
                                   "stored_points_of_refined_axes": REFNC[run.tier]},
                   "methods": ["default"] + list(METHODS),
+                  "pure_dephasing": dict(PDEPH[run.tier], types=list(PDEPH_TYPES)),
                   "conversion_after_construction_histories": len(PRES) * len(BASES),
                   "time_axis_alphabet": {
                       "bath_steps_fs": sorted({c["dt"] for c in secs[2][1] + secs[3][1]}),
